@@ -132,6 +132,23 @@ CHECKS = {
              'of PySurface (which the runtime modules are checked against as well); every annotation must equal the Pep mapping computed '
              'by the specification and use only bound names.',
         ref='3.7, 4 (C15)'),
+    'C16': dict(
+        technique='TLA+ module StoneLoadMC (109 API models with declared surfaces computed by TLC) bound to js_types, js_client, tsd_types and tsd_client output: scanners for JSDoc typedefs and .d.ts declarations compare declared names, members, optionality and referenced type names with the surfaces; the generated JS is evaluated with node when present',
+        text='For each of 108 loadable models (chains, foreign parents, argument kinds, deprecation, styles, nested alias/nullable/list '
+             'types, inherited unions, subtype trees) the four JavaScript/TypeScript rows must complete, every struct/union/alias and route is '
+             'declared exactly once under the naming scheme, members and optional markers equal the model, every referenced type name resolves '
+             'to a declaration or builtin, and brackets/strings/comments are lexically balanced. No TypeScript compiler is available offline.',
+        ref='3.7, 4 (C16)'),
+    'C17': dict(
+        technique='TLA+ module StoneLoadMC (109 API models, surfaces computed by TLC) bound to swift_types, swift_types --objc, swift_client, swift_client --objc, obj_c_types and obj_c_client output through a Swift scope scanner and an Objective-C interface scanner (harness/swiftcheck.py)',
+        text='For each of 108 loadable models all six Swift/Objective-C rows must complete; each .swift/.h/.m file is lexed (terminated '
+             'strings/comments/character literals, balanced brackets); no scope declares the same type, case, property or function signature '
+             'twice and no @interface/@implementation repeats a property or selector; every namespace, struct, union, field, tag, serializer, '
+             'route object and route function of the model is declared under the naming scheme; every qualified Swift user-type reference '
+             '(Ns.Type[.case], DBXNsType) and every Objective-C identifier in class position resolves to a declaration in the output, a '
+             'Foundation class or an SDK class named on the command line. No Swift or Objective-C compiler exists in the sandbox, so type '
+             'checking beyond name resolution is out of reach.',
+        ref='3.7, 4 (C17)'),
     'C18': dict(
         technique='TLA+ spec StoneEmit (path resolution by segment stack; emitter buffer machine with Escape/Format transcribed character by character vs reference pretty-printer; real vs manifest run of open/copy/write scripts) explored by TLC; every state replayed on real Backend subclasses',
         text='TLC enumerates all 2064 paths of 1-3 segments over {name, name, ., .., empty, non-ASCII} x {relative, absolute outside, absolute '
